@@ -112,9 +112,9 @@ func runC02(ctx *core.Ctx) {
 			if !ok {
 				return
 			}
-			ks, ok1 := kc.Call.Args[0].(*ssa.Slice)
-			vs, ok2 := mu.Value.(*ssa.Slice)
-			if ok1 && ok2 && ks.X == vs.X && ks.Low == nil && vs.High == nil && ssax.DerivedFrom(ks.X, isFieldLoad("env"), nil) {
+			kx, ksep, ok1 := beforeFirst(kc.Call.Args[0])
+			vx, vsep, ok2 := afterFirst(mu.Value)
+			if ok1 && ok2 && kx == vx && ksep == "=" && vsep == "=" && ssax.DerivedFrom(kx, isFieldLoad("env"), nil) {
 				okRebuild = true
 			}
 		})
@@ -517,9 +517,12 @@ func runC02(ctx *core.Ctx) {
 				if q, ok := isCallSuffix(v, "regexp.QuoteMeta"); ok {
 					ge, ok := isCallSuffix(q.Call.Args[0], "TestScript).Getenv")
 					if ok {
-						tr, ok := isCallSuffix(ge.Call.Args[1], "strings.TrimSuffix")
-						if ok && tr.Call.Args[0] == ssa.Value(key) && isConstStr("@R")(tr.Call.Args[1]) {
-							okR = cmpFact(facts, token.NEQ, isLenOf(tr), isLenOf(key)) || hasFact(facts, true, isCallOf([]string{"strings.HasSuffix"}, isVal(key), isConstStr("@R")))
+						if x, suf, ok := withoutSuffix(ge.Call.Args[1]); ok && x == ssa.Value(key) && suf == "@R" {
+							for _, f := range facts {
+								if fx, fs, holds, ok := suffixFact(f); ok && fx == ssa.Value(key) && fs == "@R" && holds {
+									okR = true
+								}
+							}
 						}
 					}
 					continue
